@@ -115,8 +115,7 @@ Proof.
   destruct (cnt_add_all_frame _ _ _ _ E2) as [P [Hh _]]. destruct (request_more_frame t a2 pid_b) as [P2 [Hh2 _]].
   rewrite Hh2, Hh, P2, P. cbn [a_st d_peers d_have init app find_peer map fst].
   unfold pid_a, pid_b. cbn [Z.eqb Pos.eqb]. repeat split.
-  - destruct (honest_bits t bfull); reflexivity.
-  - repeat constructor. simpl. tauto.
+  repeat constructor. simpl. tauto.
 Qed.
 
 (* ------------------------------------------------------------------ allocations stay small *)
@@ -151,7 +150,8 @@ Lemma run_msgs_sound : forall ms s es0 bb,
      (find_peer (d_peers s2) pid_b = None /\ b_all bb = true /\ all_have s = false /\ all_have s2 = true)).
 Proof.
   induction ms as [|m ms IH]; intros s es0 bb HI Hnd He Hb; simpl.
-  - exists s, [], es0. repeat split; auto using LeH_refl.
+  - exists s, [], es0. split; [reflexivity|]. split; [exact HI|]. split; [exact He|]. split; [reflexivity|].
+    split; [apply LeH_refl | now left].
   - destruct (step_good t WF s pid_a m HI) as [a [E [GI GE]]]. rewrite E.
     assert (Hrow : forallb (reply_ok t) (sends_to pid_a (a_eff a)) &&
                    forallb (reply_ok t) (if negb (is_some (find_peer (d_peers (a_st a)) pid_b)) then [] else sends_to pid_b (a_eff a)) = true).
@@ -159,7 +159,7 @@ Proof.
     assert (Hle : LeH (d_have s) (d_have (a_st a))).
     { destruct (have_only_by_valid_payload t WF s pid_a m a HI E) as [X|[i [off [len [_ [_ [_ [_ [_ [_ [_ [_ X]]]]]]]]]]]];
         rewrite X; [apply LeH_refl | apply LeH_zset]. }
-    assert (Hnd' : NoDup (map fst (d_peers (a_st a)))) by (eapply step_uniq; eauto).
+    assert (Hnd' : NoDup (map fst (d_peers (a_st a)))) by exact (step_uniq t WF s pid_a m a HI Hnd E).
     assert (Hne : pid_b <> pid_a) by (unfold pid_a, pid_b; lia).
     pose proof (others_unaffected t WF s pid_a m a pid_b bb HI Hnd E Hne Hb) as HB.
     assert (E0 : EffsOk t (es0 ++ a_eff a)) by (apply Forall_app; split; auto).
@@ -182,7 +182,8 @@ Proof.
                       forallb (fun '(ra, rb, _) => forallb (reply_ok t) ra && forallb (reply_ok t) rb) rows = true /\
                       LeH (d_have s) (d_have s2) /\ find_peer (d_peers s2) pid_b = None /\ all_have s2 = true).
         { clear. intros ms. induction ms as [|m ms IH]; intros s es0 HI He Hb Ha; simpl.
-          - exists s, [], es0. repeat split; auto using LeH_refl.
+          - exists s, [], es0. split; [reflexivity|]. split; [exact HI|]. split; [exact He|]. split; [reflexivity|].
+            split; [apply LeH_refl | split; assumption].
           - destruct (step_good t WF s pid_a m HI) as [a [E [GI GE]]]. rewrite E.
             assert (Hle : LeH (d_have s) (d_have (a_st a))).
             { destruct (have_only_by_valid_payload t WF s pid_a m a HI E) as [X|[i [off [len [_ [_ [_ [_ [_ [_ [_ [_ X]]]]]]]]]]]];
